@@ -166,13 +166,19 @@ def i32 (x : Int) : Bool := decide (-2147483648 ≤ x ∧ x ≤ 2147483647)
 
 def Totals.ok (t : Totals) : Bool := i32 t.normal && i32 t.fil && i32 t.fill && i32 t.filll
 
+/-- The `[w, h, d]` an item hands over fit in `i32` (`height - shift`, `depth + shift` of a
+box are computed in `i32`). -/
+def Item.whdOk (i : Item) : Bool :=
+  match i.whd with
+  | some (w, h, d) => i32 w && i32 h && i32 d
+  | none => true
+
 /-- Every item's own fields and every state after each iteration fit in `i32`. -/
 def loopRange (a : Acc) : List Item → Bool
   | [] => true
   | i :: l =>
     let a' := step a i
-    (match i.whd with | some (w, h, d) => i32 w && i32 h && i32 d | none => true)
-      && i32 a'.natW && a'.st.ok && a'.sh.ok && loopRange a' l
+    i.whdOk && i32 a'.natW && a'.st.ok && a'.sh.ok && loopRange a' l
 
 /-- No `i32` overflow anywhere in `pack`: the loop, `natural_width + additional`,
 `hbox.width - natural_width`, and `-excess` (evaluated only when `excess < 0` and the shrink
@@ -257,6 +263,39 @@ instance (l : List Item) (pw : PackWidth) : Decidable (Overfull l pw) := by
 def IsHighestNonzero (total : Order → Int) (o : Order) : Prop :=
   (total o ≠ 0 ∨ o = .normal) ∧ ∀ o' : Order, o.toNat < o'.toNat → total o' = 0
 
+/-! ## TeX's size discipline as a decidable hypothesis
+
+TeX keeps every dimension below `max_dimen = 2^30 − 1` in absolute value (§421) and its hpack
+adds them up without checking (§649–§657). `Small l pw` is the corresponding explicit bound
+on a whole list: the absolute widths add up to at most `max_dimen`, so do the absolute
+stretch and the absolute shrink amounts, each `[w, h, d]` fits, and the requested (additional
+or exact) width is at most `max_dimen` in absolute value. Under it no intermediate value of
+`pack` leaves `i32` (`Props/C15.lean`, `small_inRange`), so neither the overflow panic of a
+debug build nor the silent wrap of a release build can occur. -/
+
+def maxDimen : Int := 1073741823
+
+def iabs (x : Int) : Int := if x < 0 then -x else x
+
+def Item.absStretch : Item → Int
+  | .glue g => iabs g.stretch
+  | _ => 0
+
+def Item.absShrink : Item → Int
+  | .glue g => iabs g.shrink
+  | _ => 0
+
+def PackWidth.amount : PackWidth → Int
+  | .exact w => w
+  | .additional a => a
+
+def Small (l : List Item) (pw : PackWidth) : Bool :=
+  l.all Item.whdOk &&
+  decide (sum (l.map fun i => iabs i.natWidth) ≤ maxDimen) &&
+  decide (sum (l.map Item.absStretch) ≤ maxDimen) &&
+  decide (sum (l.map Item.absShrink) ≤ maxDimen) &&
+  decide (iabs pw.amount ≤ maxDimen)
+
 /-- `glue_sign`. -/
 inductive Sign | normal | stretching | shrinking
   deriving DecidableEq, Repr, Inhabited
@@ -306,6 +345,59 @@ def HBox.agrees (b : HBox) (t : TexBox) : Prop :=
 
 instance (b : HBox) (t : TexBox) : Decidable (b.agrees t) := by
   unfold HBox.agrees; cases t.sign <;> exact inferInstance
+
+/-! ## Applying the glue setting node by node (TeX §625)
+
+`hlist_out` gives a glue node of the box's order and sign the width `width(g) +
+glue_set·stretch(g)` (or `− glue_set·shrink(g)`); every other node keeps its width. With the
+signed exact ratio `num/den` of a `ds::HBox` that is `width + (num/den)·stretch` resp.
+`width + (num/den)·shrink` (`num < 0` when shrinking). `setWidthTimesDen` is that width
+multiplied by `den`, so that the statement needs no division. (TeX itself rounds each product
+to a scaled point, §625; nothing in /repo applies a glue ratio yet, so no rounding is modelled.) -/
+
+def Item.setWidthTimesDen (b : HBox) (stretching : Bool) (i : Item) : Int :=
+  i.natWidth * b.den +
+    b.num * (if stretching then i.stretchAt b.order else i.shrinkAt b.order)
+
+/-- The set widths of the nodes add up to the box width exactly whenever TeX sets the glue
+and does not call the box overfull; an overfull box with shrinkability comes out at
+`natural − total_shrink`. Executable: the driver evaluates it on the *real* box. -/
+def fillsExactly (l : List Item) (pw : PackWidth) (b : HBox) : Bool :=
+  let x := excess l pw
+  if 0 < x ∧ totalStretch l (texOrder (totalStretch l)) ≠ 0 then
+    decide (b.den ≠ 0 ∧ sum (l.map (Item.setWidthTimesDen b true)) = b.width * b.den)
+  else if Overfull l pw ∧ totalShrink l .normal ≠ 0 then
+    decide (b.den ≠ 0 ∧
+      sum (l.map (Item.setWidthTimesDen b false)) = (natWidth l - totalShrink l .normal) * b.den)
+  else if x < 0 ∧ totalShrink l (texOrder (totalShrink l)) ≠ 0 ∧ ¬ Overfull l pw then
+    decide (b.den ≠ 0 ∧ sum (l.map (Item.setWidthTimesDen b false)) = b.width * b.den)
+  else true
+
+/-! ## The overfull boundary written with `<=` (mutant 19 of the sweep)
+
+`setGlueLe` is `setGlue` with `shrink <= -excess` in the overfull test. At the boundary
+`shrink = -excess` it stores `-ONE/ONE` where `setGlue` stores `excess/shrink`: the same
+ratio −1. `Props/C15.lean` proves that `hpackLe` is TeX's box too, i.e. the two are
+indistinguishable for the property. -/
+
+def setGlueLe (h d natW : Int) (stretch : Int) (so : Order) (shrink : Int) (sho : Order)
+    (pw : PackWidth) : HBox :=
+  let width := pw.width natW
+  let excess := width - natW
+  if excess < 0 then
+    if sho = .normal ∧ shrink ≤ -excess then
+      if shrink = 0 then ⟨h, width, d, sho, 0, ONE⟩ else ⟨h, width, d, sho, -ONE, ONE⟩
+    else if shrink ≠ 0 then ⟨h, width, d, sho, excess, shrink⟩
+    else ⟨h, width, d, sho, 0, ONE⟩
+  else if excess = 0 then ⟨h, width, d, .normal, 0, 1⟩
+  else if stretch ≠ 0 then ⟨h, width, d, so, excess, stretch⟩
+  else ⟨h, width, d, .normal, 0, 1⟩
+
+def hpackLe (l : List Item) (pw : PackWidth) : HBox :=
+  let a := loop {} l
+  let so := a.st.dominating
+  let sho := a.sh.dominating
+  setGlueLe a.h a.d a.natW (a.st.get so) so (a.sh.get sho) sho pw
 
 /-! ## The unpatched code (running dominating order), for the record of C15-a / C15-b -/
 
